@@ -6,7 +6,7 @@
    of thread ids (with the select alternative taken) and environment firings; `run` skips what is not enabled,
    so the theorems below quantify over EVERY interleaving of every trigger with every other one. *)
 From Coq Require Import NArith String List Bool Arith.
-From UPF Require Import Base.LTS Model.Teardown Proofs.TeardownInv Proofs.TeardownProofs Proofs.TeardownBounded
+From UPF Require Import Base.LTS Model.Teardown Proofs.TeardownInv Proofs.TeardownProofs Proofs.TeardownForget Proofs.TeardownBounded
   Proofs.TeardownB1 Proofs.TeardownB2 Proofs.TeardownB3.
 Import ListNotations.
 Open Scope nat_scope.
@@ -77,6 +77,23 @@ Proof.
   repeat split. eexists. split; reflexivity.
 Qed.
 Print Assumptions C10_forgotten_refuted.
+
+(* without Stop, every n, every schedule: an established association whose Shutdown completed is, as soon as the
+   node has drained pConnDone, no longer in pConns, and a fresh Setup from its address is processed *)
+Theorem C10_forgotten_partial : forall cfg ev sch i c a,
+  no_stop ev -> nth_error cfg i = Some c -> c_first c = None ->
+  nth_error (s_asc (run (init cfg ev) sch)) i = Some a -> a_once a = ODone ->
+  cbuf (n_pcd (s_node (run (init cfg ev) sch))) = [] ->
+  in_map (run (init cfg ev) sch) i = false /\ fresh_setup_processed (run (init cfg ev) sch) i = true.
+Proof. exact forgotten_without_stop. Qed.
+Print Assumptions C10_forgotten_partial.
+
+(* ... and the channel IS empty whenever the node's loop cannot move *)
+Theorem C10_forgotten_partial_drained : forall cfg ev sch,
+  no_stop ev -> step (run (init cfg ev) sch) (TNode 0) = None ->
+  cbuf (n_pcd (s_node (run (init cfg ev) sch))) = [].
+Proof. exact quiet_buffer_empty. Qed.
+Print Assumptions C10_forgotten_partial_drained.
 
 (* ------------------------------------------------------------------ no deadlock / termination *)
 (* refuted under Stop: the node ranges over pConnDone which nobody closes; Done() never returns (F21) *)
